@@ -96,6 +96,11 @@ def cases(rng, tier, shard, nshards):
 
 
 def reproduce_known(f):
+    if f["id"] == "F14b":
+        # the model follows the pinned behaviour (leaf returned raw); the PROPERTY asks for the rendered text
+        x = wire.unjson(f["witness"]["input"])
+        i = RESOLVE.impl(x)
+        return i[0] == "OK" and not isinstance(i[1], str)
     rn = core.Runner()
     try:
         surf = SURFACES[f["witness"]["surface"]]
